@@ -8,6 +8,7 @@
 //! Exit codes: 0 held on everything explored; 1 violation (line `VIOLATION property=<id> replay=<path>`);
 //! 2 harness error.
 
+mod arith;
 mod cfgfuzz;
 mod eng_admin;
 mod eng_ops;
@@ -62,10 +63,12 @@ enum Source {
     CfgFuzz,
     Migr,
     Hooks,
+    Arith,
 }
 
 fn sources(prop: &str) -> Vec<Source> {
     match prop {
+        "C04" => vec![Source::Staking, Source::Staking, Source::Staking, Source::Arith],
         "C09" => vec![Source::Staking, Source::Hooks],
         "C12" => vec![Source::Staking, Source::Treasury],
         "C13" => vec![Source::Treasury],
@@ -116,6 +119,11 @@ fn gen_case(prop: &str, seed: u64, idx: u64, known: &Known, keep_events: bool) -
             let c = hooks::gen(rs);
             let e = hooks::eval(&c);
             (Case::Hooks(c), e)
+        }
+        Source::Arith => {
+            let c = arith::gen(rs);
+            let e = arith::eval(&c);
+            (Case::Arith(c), e)
         }
     }
 }
@@ -634,7 +642,18 @@ fn main() {
         eprintln!("usage: mwsim check|replay|trace|dump|events ...");
         std::process::exit(2);
     }
-    let code = match args[0].as_str() {
+    let code = match std::panic::catch_unwind(|| run_cli(&args)) {
+        Ok(c) => c,
+        Err(_) => {
+            eprintln!("HARNESS ERROR: the simulator itself panicked");
+            2
+        }
+    };
+    std::process::exit(code);
+}
+
+fn run_cli(args: &[String]) -> i32 {
+    match args[0].as_str() {
         "check" if args.len() >= 2 => cmd_check(&args[1..]),
         "replay" if args.len() >= 2 => cmd_replay(&args[1]),
         "trace" if args.len() >= 4 => cmd_trace(&args[1..]),
@@ -656,6 +675,5 @@ fn main() {
             eprintln!("bad arguments");
             2
         }
-    };
-    std::process::exit(code);
+    }
 }
